@@ -234,6 +234,8 @@ fn c06(r: &mut Rep) {
 enum Mk { None, Own, Rep, Skip, Stop, StopRep }
 const MARKS: [Mk; 6] = [Mk::None, Mk::Own, Mk::Rep, Mk::Skip, Mk::Stop, Mk::StopRep];
 
+fn thorough() -> bool { std::env::var("STANDIN_TIER").map(|v| v == "thorough").unwrap_or(false) }
+
 fn sequences(n: usize) -> Vec<Vec<Mk>> {
     let mut out: Vec<Vec<Mk>> = vec![vec![]];
     for _ in 0..n {
@@ -253,8 +255,8 @@ fn member_instr(cat: &str, k: usize) -> String {
 fn c14_members(r: &mut Rep) {
     let carriers: [&[&str]; 5] = [&["map"], &["child"], &["ghost"], &["map", "child"], &["child", "ghost"]];
     let sels: [&[&str]; 5] = [&[], &["map"], &["child"], &["ghost"], &["map", "ghost"]];   // [] = everything
-    let head = "#[map(B)]\n#[into_existing(B)]\n#[child_parents(c0: C, c1: C, c2: C, c3: C, c4: C)]";
-    for seq in sequences(5) {
+    let head = "#[map(B)]\n#[into_existing(B)]\n#[child_parents(c0: C, c1: C, c2: C, c3: C, c4: C, c5: C)]";
+    for seq in sequences(if thorough() { 6 } else { 5 }) {
         if !seq.iter().any(|m| matches!(m, Mk::Rep | Mk::StopRep)) { continue; }
         for carrier in carriers {
             for sel in sels {
@@ -325,7 +327,7 @@ fn c14_enum_fields(r: &mut Rep) {
 
 // variant-level repeat
 fn c14_variants(r: &mut Rep) {
-    for seq in sequences(4) {
+    for seq in sequences(if thorough() { 5 } else { 4 }) {
         if !seq.iter().any(|m| matches!(m, Mk::Rep | Mk::StopRep)) { continue; }
         for sel in ["", "type_hint", "ghost", "map"] {
             let rep_txt = if sel.is_empty() { "#[o2o(repeat)]".to_string() } else { format!("#[o2o(repeat({}))]", sel) };
@@ -358,7 +360,7 @@ fn c14_traits(r: &mut Rep) {
         ("from_owned", "owned_into", "enum S { #[literal(1)] V, #[literal(2)] W }", "default"),
     ];
     let sels: [&[&str]; 5] = [&[], &["vars"], &["update"], &["quick_return"], &["default_case"]];
-    for seq in sequences(4) {
+    for seq in sequences(if thorough() { 5 } else { 4 }) {
         if !seq.iter().any(|m| matches!(m, Mk::Rep | Mk::StopRep)) { continue; }
         if seq.iter().any(|m| *m == Mk::Own) { continue; }   // an own value for a repeated parameter is a documented error
         for (name, other, body, term) in setups {
